@@ -42,6 +42,68 @@ for name, (lo, hi) in INT_RANGES.items():
     checker.checks(name)(_mk(lo, hi))
 
 
+# Recognised string formats are asserted in their *canonical* spellings only
+# (lower-case hyphenated UUID, YYYY-MM-DD, RFC 3339 date-time with Z/offset,
+# dotted quad, RFC 5952-style IPv6). This makes the oracle stricter than
+# draft-07 requires, which can only remove obligations from "valid => accepted"
+# checks; no check concludes anything from a format-invalid string.
+import re, datetime, ipaddress
+
+_UUID = re.compile(r"^[0-9a-f]{8}-[0-9a-f]{4}-[0-9a-f]{4}-[0-9a-f]{4}-[0-9a-f]{12}$")
+_DT = re.compile(r"^(\d{4})-(\d\d)-(\d\d)T(\d\d):(\d\d):(\d\d)(\.\d{1,9})?(Z|[+-]\d\d:\d\d)$")
+
+
+def _str_only(f):
+    def g(v):
+        if not isinstance(v, str):
+            return True
+        try:
+            return bool(f(v))
+        except Exception:
+            return False
+    return g
+
+
+def _date(v):
+    if not re.match(r"^\d{4}-\d\d-\d\d$", v):
+        return False
+    datetime.date.fromisoformat(v)
+    return True
+
+
+def _datetime(v):
+    m = _DT.match(v)
+    if not m:
+        return False
+    datetime.date(int(m.group(1)), int(m.group(2)), int(m.group(3)))
+    if int(m.group(4)) > 23 or int(m.group(5)) > 59 or int(m.group(6)) > 59:
+        return False
+    off = m.group(8)
+    if off != "Z" and (int(off[1:3]) > 23 or int(off[4:6]) > 59):
+        return False
+    return True
+
+
+def _ipv4(v):
+    if not re.match(r"^[0-9.]+$", v):
+        return False
+    return str(ipaddress.IPv4Address(v)) == v
+
+
+def _ipv6(v):
+    if not re.match(r"^[0-9a-f:.]+$", v):
+        return False
+    return str(ipaddress.IPv6Address(v)) == v
+
+
+checker.checks("uuid")(_str_only(lambda v: _UUID.match(v)))
+checker.checks("date")(_str_only(_date))
+checker.checks("date-time")(_str_only(_datetime))
+checker.checks("ipv4")(_str_only(_ipv4))
+checker.checks("ipv6")(_str_only(_ipv6))
+checker.checks("ip")(_str_only(lambda v: _ipv4(v) if ":" not in v else _ipv6(v)))
+
+
 def validator(schema, ref):
     if ref:
         s = dict(schema)
@@ -60,7 +122,15 @@ def selftest():
         ({"type": "integer", "format": "uint8"}, 255, True),
         ({"type": "integer", "format": "uint8"}, 256, False),
         ({"type": "integer", "format": "int8"}, -129, False),
-        ({"type": "string", "format": "uuid"}, "nope", True),
+        ({"type": "string", "format": "uuid"}, "nope", False),
+        ({"type": "string", "format": "uuid"}, "123e4567-e89b-12d3-a456-426614174000", True),
+        ({"type": "string", "format": "ip"}, ":", False),
+        ({"type": "string", "format": "ip"}, "::1", True),
+        ({"type": "string", "format": "ipv4"}, "10.0.0.255", True),
+        ({"type": "string", "format": "ipv4"}, "10.0.0.256", False),
+        ({"type": "string", "format": "date"}, "2020-02-30", False),
+        ({"type": "string", "format": "date-time"}, "2020-02-29T12:34:56Z", True),
+        ({"type": "string", "format": "made-up"}, "anything", True),
         ({"type": "string", "minLength": 2}, "éé", True),
         ({"type": "string", "maxLength": 1}, "\U0001F600", True),
         ({"type": "object", "required": ["a"]}, {}, False),
